@@ -710,6 +710,17 @@ func TestVerifC35(t *testing.T) {
 			{"h265", 4, pick(c35H265Types, "VPS", "IDR_W_RADL", "TRAIL_R", "TRAIL_N", "PSEI"), []int{4, 100, 2000}},
 		}
 	}
+	// every NAL unit type of the two codecs (the unit types proper: H.264 1..23, H.265 0..47; the higher
+	// numbers are RTP payload structures), small units only (never fragmented), sequences up to length 2:
+	// which types latch the writer is decided per TYPE, so each type is tried before and after a keyframe
+	var all264, all265 []c35Type
+	for t := 1; t <= 23; t++ {
+		all264 = append(all264, c35Type{fmt.Sprintf("type%d", t), []byte{0x60 | byte(t)}})
+	}
+	for t := 0; t <= 47; t++ {
+		all265 = append(all265, c35Type{fmt.Sprintf("type%d", t), []byte{byte(t << 1), 0x01}})
+	}
+	plans = append(plans, plan{"h264", 2, all264, []int{4}}, plan{"h265", 2, all265, []int{4}})
 	mtus := []int{100, 1200}
 	c.Set("mtus", mtus)
 	c.Set("groupings", []string{"each", "au"})
